@@ -166,7 +166,11 @@ static size_t rawBlockSize(size_t numNodes, size_t numEdges,
       bytes += sizeof(uint32_t); // padding
   } else if (graphVersion == 2) {
     bytes += sizeof(uint64_t) * numEdges;
-    // no padding necessary in version 2 TODO verify this
+
+    // fromMem(), fromArrays() and the LC_CSR_Graph file reader all skip one
+    // padding word after an odd number of version 2 destinations
+    if (numEdges % 2)
+      bytes += sizeof(uint64_t); // padding
   } else {
     GALOIS_DIE("unknown file version: ", graphVersion);
   }
@@ -736,7 +740,8 @@ void FileGraphWriter::phase1() {
                  ? reinterpret_cast<char*>(reinterpret_cast<uint32_t*>(fptr) +
                                            numEdges + numEdges % 2) // padding
                  : reinterpret_cast<char*>(
-                       /*reinterpret_cast<uint64_t*>*/ (fptr) + numEdges);
+                       /*reinterpret_cast<uint64_t*>*/ (fptr) + numEdges +
+                       numEdges % 2); // padding
 }
 
 void FileGraphWriter::phase2() {
